@@ -1422,16 +1422,25 @@ func decodeExtendedURLRecord(data *[]byte) (SFlowExtendedURLRecord, error) {
 	var urlBytes []byte
 	var hostBytes []byte
 
+	if len(*data) < 16 {
+		return eur, errors.New("extended URL record too small")
+	}
 	*data, fdf = (*data)[4:], SFlowFlowDataFormat(binary.BigEndian.Uint32((*data)[:4]))
 	eur.EnterpriseID, eur.Format = fdf.decode()
 	*data, eur.FlowDataLength = (*data)[4:], binary.BigEndian.Uint32((*data)[:4])
 	*data, eur.Direction = (*data)[4:], SFlowURLDirection(binary.BigEndian.Uint32((*data)[:4]))
 	*data, urlLen = (*data)[4:], binary.BigEndian.Uint32((*data)[:4])
 	urlLenWithPad = int(urlLen + ((4 - urlLen) % 4))
+	if urlLen > uint32(len(*data)) || urlLenWithPad > len(*data)-4 {
+		return eur, errors.New("extended URL record too small for URL")
+	}
 	*data, urlBytes = (*data)[urlLenWithPad:], (*data)[:urlLenWithPad]
 	eur.URL = string(urlBytes[:urlLen])
 	*data, hostLen = (*data)[4:], binary.BigEndian.Uint32((*data)[:4])
 	hostLenWithPad = int(hostLen + ((4 - hostLen) % 4))
+	if hostLen > uint32(len(*data)) || hostLenWithPad > len(*data) {
+		return eur, errors.New("extended URL record too small for host")
+	}
 	*data, hostBytes = (*data)[hostLenWithPad:], (*data)[:hostLenWithPad]
 	eur.Host = string(hostBytes[:hostLen])
 	return eur, nil
